@@ -107,7 +107,13 @@ def run_kernel_check(prop, tier, kernels_wanted, solver_insts, reps, sample_coun
         keep = [s for s in pats if s.get("coin", "none") not in ("none", "late_bound_then_arc")][:1500]
         idx = rng.choice(len(pats), size=min(len(pats), sample_counts.get("trsbox_machine", 3000)), replace=False)
         mach = trsboxmachine.part(V, tier, wd, keep + [pats[int(i)] for i in idx], solver_insts[:sample_counts.get("trsbox_machine_runs", 24)], 1)
-    cov = dict(states=r["distinct"] + (mach["model_states"] if mach else 0), transitions=r["generated"] + (mach["model_transitions"] if mach else 0), kernel_machine=mach,
+    smach = None
+    if "ctrsbox_sfista" in kernels_wanted:
+        # inside the regularised step solver: Sfista.tla (iteration-count machine) against monitored calls of whole regularised runs
+        from . import sfistamachine
+        regs = [i for i in solver_insts if i.get("reg", "none") != "none"][:sample_counts.get("sfista_machine_runs", 8)]
+        smach = sfistamachine.part(V, tier, wd, regs)
+    cov = dict(states=r["distinct"] + (mach["model_states"] if mach else 0), transitions=r["generated"] + (mach["model_transitions"] if mach else 0), kernel_machine=mach, sfista_machine=smach,
                class_patterns=len(sel), kernel_calls=ncalls, kernel_calls_inside_solver_runs=insolver,
                kernel_calls_inside_solver_runs_outside_scale_domain=outdom,
                traces_validated_against_impl=len(traces) + tcov["traces_validated_against_impl"], clause_failures=dict(hits, **tcov["clause_failures"]),
